@@ -137,7 +137,7 @@ def main(argv=None):
     known = load_known()
     tot = {k: 0 for k in ("paths", "aborted", "obligations", "unsat", "sat_replayed",
                           "sat_spurious", "unknown", "queries", "vacuity_sat",
-                          "validated_points", "lifted_constants", "concrete_true")}
+                          "validated_points", "lifted_constants", "concrete_true", "folded_symbolic")}
     solver_s = 0.0
     violations, errors, inconclusive, assumptions, samples, distinct = [], [], [], [], [], set()
     per_h = {}
@@ -211,12 +211,13 @@ def main(argv=None):
             "property_id": pid, "tier": tier, "seed": seed, "level": "other",
             "coverage": {
                 "explanation": getattr(mod, "EXPLANATION", "") or (mod.__doc__ or "").strip(),
-                "evaluations": tot["obligations"],
+                "evaluations": tot["obligations"] + tot["folded_symbolic"],
                 "distinct_nontrivial": len(distinct),
-                "rule": "one evaluation = one (path, obligation) SMT query on the z3 term the "
-                        "real WallGo code built on symbolic inputs; distinct = distinct "
-                        "(obligation name, claim term) pairs; trivial claims that constant-fold "
-                        "to true never reach the solver and are not counted",
+                "rule": "one evaluation = one (path, obligation) claim over the z3 term the real "
+                        "WallGo code built on symbolic inputs, decided either by an SMT query or, "
+                        "when both sides normalise to the same term, by z3's simplifier "
+                        "(claims_settled_by_term_normalisation); distinct = distinct (obligation "
+                        "name, claim term) pairs; ground claims without symbolic inputs are not counted",
                 "samples": samples[:6],
                 "functions_encoded": encoded,
                 "bounds": getattr(mod, "BOUNDS", {}),
@@ -228,6 +229,7 @@ def main(argv=None):
                 "solver_time_s": round(solver_s, 2),
                 "vacuity_paths_sat": tot["vacuity_sat"],
                 "claims_decided_by_constant_folding": tot["concrete_true"],
+                "claims_settled_by_term_normalisation": tot["folded_symbolic"],
                 "translator_validation_points": tot["validated_points"],
                 "ideal_constant_lifts": tot["lifted_constants"],
                 "per_harness": per_h,
